@@ -1,10 +1,11 @@
 /-
   C42 — CPU lists parse to the set they denote; the fan-out helper never exceeds work or pool.
-  Property theorems only (helper lemmas live in IQE/Lemmas/CpuList.lean).
+  Property theorems only (helper lemmas live in IQE/Lemmas/CpuList.lean and IQE/Lemmas/CpuListText.lean).
   Model: IQE.Engine.CpuList (hand-written mirror of `parse_cpulist`); `workers_for` is stated over
   the hand model here and over the translator-regenerated definition in `C42_workers_*_gen`.
 -/
 import IQE.Lemmas.CpuList
+import IQE.Lemmas.CpuListText
 import IQE.Gen.Topology
 namespace IQE.Props.C42
 open IQE.Engine.CpuList IQE.Text
@@ -57,6 +58,194 @@ theorem C42_workers_gen_eq_model (work pool : Nat) :
   simp only [Nat.max_def]
   repeat' split
   all_goals omega
+
+/-! ## String level: a cpulist parses to exactly the set it denotes
+
+Specification side (independent of the parser): what it means for a text to *render* a number, a
+single id, a range; what an item denotes. `commaJoin` (IQE/Lemmas/CpuListText.lean) is
+`[] ↦ []`, `[p] ↦ p`, `p :: q :: r ↦ p ++ ',' :: commaJoin (q :: r)`. -/
+
+/-- `t` renders the number `n`: optional `+`, then ≥ 1 ASCII digits (leading zeros allowed) of value `n < 2^64`
+    — the texts Rust's `str::parse::<usize>` accepts. -/
+def NumTxt (t : List Char) (n : Nat) : Prop :=
+  ∃ ds : List Char, (t = ds ∨ t = '+' :: ds) ∧ ds ≠ [] ∧ (∀ c ∈ ds, isDigit c = true) ∧
+    decVal ds = n ∧ n < 2 ^ 64
+
+/-- What one comma-separated part stands for. -/
+inductive Item
+  | single (n : Nat)
+  | range (a b : Nat)
+  | junk
+
+/-- The ids an item denotes: `n`; `a..=b` (empty when `a > b`); nothing. -/
+def Item.denote : Item → List Nat
+  | .single n => [n]
+  | .range a b => rangeIncl a b
+  | .junk => []
+
+/-- `Renders p i`: the part `p` (no comma inside) is a rendering of item `i`. Whitespace is any
+    Unicode `White_Space` character (`isWs`), anywhere around the numbers and the dash. -/
+inductive Renders : List Char → Item → Prop
+  | single (w1 t w2 : List Char) (n : Nat)
+      (h1 : ∀ c ∈ w1, isWs c = true) (h2 : ∀ c ∈ w2, isWs c = true) (ht : NumTxt t n) :
+      Renders (w1 ++ t ++ w2) (.single n)
+  | range (w1 ta w2 w3 tb w4 : List Char) (a b : Nat)
+      (h1 : ∀ c ∈ w1, isWs c = true) (h2 : ∀ c ∈ w2, isWs c = true)
+      (h3 : ∀ c ∈ w3, isWs c = true) (h4 : ∀ c ∈ w4, isWs c = true)
+      (hta : NumTxt ta a) (htb : NumTxt tb b) :
+      Renders (w1 ++ ta ++ w2 ++ '-' :: (w3 ++ tb ++ w4)) (.range a b)
+  | junk (p : List Char) (hc : ',' ∉ p) (hj : parsePart (trim p) = [] ∨ trim p = []) :
+      Renders p .junk
+
+/-- `a..=b` as a set. -/
+theorem C42_mem_range (a b x : Nat) : x ∈ (Item.range a b).denote ↔ a ≤ x ∧ x ≤ b :=
+  mem_rangeIncl a b x
+
+/-- `NumTxt` is exactly what `parse::<usize>` accepts, with the value it returns. -/
+theorem C42_numtxt_iff_parse (t : List Char) (n : Nat) : NumTxt t n ↔ parseUsize t = some n :=
+  numShape_iff_parse (bound := usizeBound)
+
+/-- A rendered part never contains the separator. -/
+theorem C42_renders_no_comma (p : List Char) (i : Item) (h : Renders p i) : ',' ∉ p := by
+  cases h with
+  | single w1 t w2 n h1 h2 ht => exact no_comma_single h1 h2 ht
+  | range w1 ta w2 w3 tb w4 a b h1 h2 h3 h4 hta htb => exact no_comma_range h1 h2 h3 h4 hta htb
+  | junk p hc hj => exact hc
+
+/-- One loop iteration on a rendered part pushes exactly what the item denotes. -/
+theorem C42_part_denotes (p : List Char) (i : Item) (h : Renders p i) :
+    (if (trim p).isEmpty then [] else parsePart (trim p)) = i.denote := by
+  cases h with
+  | single w1 t w2 n h1 h2 ht => exact partStep_single h1 h2 ht
+  | range w1 ta w2 w3 tb w4 a b h1 h2 h3 h4 hta htb => exact partStep_range h1 h2 h3 h4 hta htb
+  | junk p hc hj => exact partStep_junk hj
+
+/-- The values pushed for a comma-joined list of rendered parts: the concatenation of the denotations, in order. -/
+theorem C42_collect_denotes (ps : List (List Char × Item)) (hne : ps ≠ [])
+    (h : ∀ p ∈ ps, Renders p.1 p.2) :
+    collect (commaJoin (ps.map (·.1))) = ps.flatMap (fun p => p.2.denote) := by
+  have hc : ∀ q ∈ ps.map (·.1), ',' ∉ q := by
+    intro q hq
+    obtain ⟨p, hp, rfl⟩ := List.mem_map.1 hq
+    exact C42_renders_no_comma p.1 p.2 (h p hp)
+  rw [collect_commaJoin (by simpa using hne) hc, List.flatMap_map]
+  apply flatMap_congr'
+  intro p hp
+  exact C42_part_denotes p.1 p.2 (h p hp)
+
+/-- MAIN: for every list of rendered parts — any grouping into ranges, any order, duplicates, overlapping or
+    empty (reversed) ranges, Unicode whitespace around numbers / dashes / commas, `+` signs, leading zeros,
+    junk parts in between — the parsed vector contains exactly the ids denoted by some part.
+    With `C42_sorted_nodup`: the output IS the strictly increasing enumeration of the denoted set. -/
+theorem C42_denotes (ps : List (List Char × Item)) (hne : ps ≠ [])
+    (h : ∀ p ∈ ps, Renders p.1 p.2) (x : Nat) :
+    x ∈ parse (commaJoin (ps.map (·.1))) ↔ ∃ p ∈ ps, x ∈ p.2.denote := by
+  rw [C42_mem_iff_collected, C42_collect_denotes ps hne h, List.mem_flatMap]
+
+/-- Two renderings of the same set parse to the same vector (the output is canonical). -/
+theorem C42_canonical (ps qs : List (List Char × Item)) (hp : ps ≠ []) (hq : qs ≠ [])
+    (h1 : ∀ p ∈ ps, Renders p.1 p.2) (h2 : ∀ q ∈ qs, Renders q.1 q.2)
+    (hset : ∀ x, (∃ p ∈ ps, x ∈ p.2.denote) ↔ (∃ q ∈ qs, x ∈ q.2.denote)) :
+    parse (commaJoin (ps.map (·.1))) = parse (commaJoin (qs.map (·.1))) := by
+  apply strict_sorted_ext _ _ (C42_sorted_nodup _) (C42_sorted_nodup _)
+  intro x
+  rw [C42_denotes ps hp h1, C42_denotes qs hq h2, hset]
+
+/-- Junk is ignored, and ONLY junk: a trimmed part contributes something only if it has one of the two
+    shapes, and then it contributes exactly `[n]` resp. `lo..=hi` (for every `p`, with or without comma). -/
+theorem C42_junk_ignored (p : List Char) (h : parsePart (trim p) ≠ []) :
+    (∃ n, parseUsize (trim p) = some n ∧ '-' ∉ trim p ∧ parsePart (trim p) = [n]) ∨
+    (∃ a b lo hi, splitOnce '-' (trim p) = some (a, b) ∧ parseUsize (trim a) = some lo ∧
+      parseUsize (trim b) = some hi ∧ parsePart (trim p) = rangeIncl lo hi) :=
+  parsePart_shapes (trim p) h
+
+/-- `Renders` is total on comma-free parts: every such part renders a single id, a range, or is junk (and by
+    `C42_junk_ignored` it is junk only when it has neither shape). Every string is the comma-join of its
+    comma-free pieces, so `C42_denotes` speaks about every input. -/
+theorem C42_renders_total (p : List Char) (hc : ',' ∉ p) : ∃ i, Renders p i := by
+  by_cases hj : parsePart (trim p) = [] ∨ trim p = []
+  · exact ⟨.junk, .junk p hc hj⟩
+  · have hpp : parsePart (trim p) ≠ [] := fun e => hj (Or.inl e)
+    obtain ⟨w1, w4, hp, h1, h4⟩ := exists_trim_decomp p
+    rcases C42_junk_ignored p hpp with ⟨n, hn, -, -⟩ | ⟨a, b, lo, hi, hs, hlo, hhi, -⟩
+    · refine ⟨.single n, ?_⟩
+      rw [hp]
+      exact .single w1 (trim p) w4 n h1 h4 ((C42_numtxt_iff_parse _ _).2 hn)
+    · refine ⟨.range lo hi, ?_⟩
+      obtain ⟨ht, -⟩ := splitOnce_some hs
+      obtain ⟨u1, u2, ha, hu1, hu2⟩ := exists_trim_decomp a
+      obtain ⟨v1, v2, hb, hv1, hv2⟩ := exists_trim_decomp b
+      have hta : NumTxt (trim a) lo := (C42_numtxt_iff_parse _ _).2 hlo
+      have htb : NumTxt (trim b) hi := (C42_numtxt_iff_parse _ _).2 hhi
+      have e : p = (w1 ++ u1) ++ trim a ++ u2 ++ '-' :: (v1 ++ trim b ++ (v2 ++ w4)) := by
+        calc p = w1 ++ trim p ++ w4 := hp
+          _ = w1 ++ (a ++ '-' :: b) ++ w4 := by rw [ht]
+          _ = w1 ++ ((u1 ++ trim a ++ u2) ++ '-' :: (v1 ++ trim b ++ v2)) ++ w4 := by rw [← ha, ← hb]
+          _ = _ := by simp [List.append_assoc]
+      rw [e]
+      exact .range (w1 ++ u1) (trim a) u2 v1 (trim b) (v2 ++ w4) lo hi
+        (AllWs.append h1 hu1) hu2 hv1 (AllWs.append hv2 h4) hta htb
+
+/-- Every input string is covered: it is the comma-join of parts each rendering some item, so `C42_denotes`
+    determines the output of `parse` on EVERY string (hypotheses never exclude an input). -/
+theorem C42_every_input_rendered (s : List Char) :
+    ∃ ps : List (List Char × Item), ps ≠ [] ∧ (∀ p ∈ ps, Renders p.1 p.2) ∧ commaJoin (ps.map (·.1)) = s := by
+  obtain ⟨ps, hps, hR⟩ := exists_labelling Renders (splitOn ',' s)
+    (fun p hp => C42_renders_total p (not_mem_of_mem_splitOn hp))
+  refine ⟨ps, ?_, hR, by rw [hps, commaJoin_splitOn]⟩
+  intro e
+  rw [e] at hps
+  exact splitOn_ne_nil ',' s hps.symm
+
+/-- Example input `"\u{a0}2\u{2003}-\t+4 ,007,x-1,+3, 9 - 8,\u{3000}"`: a range with inner Unicode whitespace and a
+    `+`, leading zeros, a junk part, a `+` single, a reversed (empty) range, an all-whitespace part. -/
+def exampleParts : List (List Char × Item) :=
+  [ (['\u00a0', '2', '\u2003', '-', '\t', '+', '4', ' '], .range 2 4),
+    (['0', '0', '7'], .single 7),
+    (['x', '-', '1'], .junk),
+    (['+', '3'], .single 3),
+    ([' ', '9', ' ', '-', ' ', '8'], .range 9 8),
+    (['\u3000'], .junk) ]
+
+-- non-vacuity of the hypotheses of C42_denotes: the example parts satisfy `Renders`, and the theorem applied to them
+example : (∀ p ∈ exampleParts, Renders p.1 p.2) ∧
+    ∀ x, x ∈ parse (commaJoin (exampleParts.map (·.1))) ↔ x = 2 ∨ x = 3 ∨ x = 4 ∨ x = 7 := by
+  have hR : ∀ p ∈ exampleParts, Renders p.1 p.2 := by
+    intro p hp
+    simp only [exampleParts, List.mem_cons, List.mem_nil_iff, or_false] at hp
+    rcases hp with rfl | rfl | rfl | rfl | rfl | rfl
+    · exact Renders.range ['\u00a0'] ['2'] ['\u2003'] ['\t'] ['+', '4'] [' '] 2 4
+        (by decide) (by decide) (by decide) (by decide)
+        ⟨['2'], Or.inl rfl, by decide, by decide, by decide, by decide⟩
+        ⟨['4'], Or.inr rfl, by decide, by decide, by decide, by decide⟩
+    · exact Renders.single [] ['0', '0', '7'] [] 7 (by decide) (by decide)
+        ⟨['0', '0', '7'], Or.inl rfl, by decide, by decide, by decide, by decide⟩
+    · exact Renders.junk _ (by decide) (Or.inl (by decide))
+    · exact Renders.single [] ['+', '3'] [] 3 (by decide) (by decide)
+        ⟨['3'], Or.inr rfl, by decide, by decide, by decide, by decide⟩
+    · exact Renders.range [' '] ['9'] [' '] [' '] ['8'] [] 9 8
+        (by decide) (by decide) (by decide) (by decide)
+        ⟨['9'], Or.inl rfl, by decide, by decide, by decide, by decide⟩
+        ⟨['8'], Or.inl rfl, by decide, by decide, by decide, by decide⟩
+    · exact Renders.junk _ (by decide) (Or.inr (by decide))
+  refine ⟨hR, fun x => ?_⟩
+  rw [C42_denotes _ (by decide) hR]
+  simp [exampleParts, Item.denote, mem_rangeIncl]
+  omega
+
+-- the joined text, and what the loop pushes for it (kernel evaluation of the model)
+example : commaJoin (exampleParts.map (·.1)) =
+    ['\u00a0', '2', '\u2003', '-', '\t', '+', '4', ' ', ',', '0', '0', '7', ',', 'x', '-', '1', ',', '+', '3', ',',
+     ' ', '9', ' ', '-', ' ', '8', ',', '\u3000'] := by decide
+example : collect (commaJoin (exampleParts.map (·.1))) = [2, 3, 4, 7, 3] := by decide
+example : exampleParts.flatMap (fun p => p.2.denote) = [2, 3, 4, 7, 3] := by decide
+-- junk really is junk: these trimmed parts push nothing; a well-formed one does
+example : parsePart (trim ['x', '-', '1']) = [] ∧ parsePart (trim ['1', '-']) = [] ∧
+    parsePart (trim ['-', '1']) = [] ∧ parsePart (trim ['1', '-', '2', '-', '3']) = [] ∧
+    parsePart (trim ['٣']) = [] ∧ parsePart (trim [' ', '1', '-', '2', ' ']) = [1, 2] := by decide
+-- 2^64 - 1 is accepted, 2^64 is not
+example : parseUsize ['1','8','4','4','6','7','4','4','0','7','3','7','0','9','5','5','1','6','1','5'] = some (2 ^ 64 - 1) ∧
+    parseUsize ['1','8','4','4','6','7','4','4','0','7','3','7','0','9','5','5','1','6','1','6'] = none := by decide
 
 -- non-vacuity: concrete evaluations of the model
 example : collect [' ', '2', '-', '3', ',', ' ', '7', ' ', ',', 'x', ',', '9', '-', '8', ',', '0', ' '] = [2, 3, 7, 0] := by decide
